@@ -269,6 +269,15 @@ def apply_op(world, op, args):
             return getattr(a, params[0])
         if name == 'index':
             return a[tuple(params)] if len(params) != 1 else a[params[0]]
+        if name == 'deepcopy':
+            import copy as _copy
+            return _copy.deepcopy(a)
+        if name == 'copy':
+            import copy as _copy
+            return _copy.copy(a)
+        if name == 'pickle':
+            import pickle as _pickle
+            return _pickle.loads(_pickle.dumps(a))
         if name == 'map':
             return a.map(lambda v: 2 * v) if not params else a.map(lambda k, v: (k + 1) * v)
         if name == 'asmatrix':
